@@ -217,12 +217,44 @@ fn extract<'tcx>(tcx: TyCtxt<'tcx>, crate_name: &str) -> String {
             _ => continue,
         };
         // constructors of tuple structs etc. are not in this list; const fns are fine.
-        let (steal, _prom) = tcx.mir_promoted(ldid);
+        let (steal, prom) = tcx.mir_promoted(ldid);
         if steal.is_stolen() {
             continue;
         }
         let body = steal.borrow();
-        bodies.push(body_json(tcx, ldid, kname, &body, detail_all));
+        // promoted constants (`&Enum::Variant`, `&CONST` operands of comparisons): what each one evaluates to, when it is a plain
+        // enum variant / struct literal or a single constant
+        let mut promoted: Vec<String> = Vec::new();
+        if !prom.is_stolen() {
+            for pb in prom.borrow().iter() {
+                let mut what = String::new();
+                for bbd in pb.basic_blocks.iter() {
+                    for st in &bbd.statements {
+                        if let mir::StatementKind::Assign(b) = &st.kind {
+                            match &b.1 {
+                                Rvalue::Aggregate(kind, _) if what.is_empty() => {
+                                    if let AggregateKind::Adt(did, vi, _, _, _) = &**kind {
+                                        let adt = tcx.adt_def(*did);
+                                        what = format!("{}::{}", tcx.def_path_str(*did), adt.variant(*vi).name);
+                                    }
+                                }
+                                Rvalue::Use(mir::Operand::Constant(c), _) if what.is_empty() => {
+                                    what = clip(format!("{}", c.const_), 120);
+                                }
+                                _ => {}
+                            }
+                        }
+                    }
+                }
+                promoted.push(esc(&what));
+            }
+        }
+        let mut bj = body_json(tcx, ldid, kname, &body, detail_all);
+        if detail_all && bj.ends_with('}') {
+            bj.pop();
+            let _ = write!(bj, ",\"promoted\":[{}]}}", promoted.join(","));
+        }
+        bodies.push(bj);
     }
     let _ = write!(out, ",\"bodies\":[{}]", bodies.join(",\n"));
     out.push('}');
